@@ -861,6 +861,13 @@ pub fn gen_tree(r: &mut Rng, max_nodes: usize, with_panic: bool) -> Tree {
         // lose their subtree
         let i = if nodes.len() == 1 || r.chance(1, 6) { 0 } else { 1 + r.usize(nodes.len() - 1) };
         nodes[i].1 = Kind::Panic;
+        // sometimes two or three failing nodes (several workers may die)
+        if nodes.len() > 3 && r.chance(1, 4) {
+            for _ in 0..(1 + r.usize(2)) {
+                let j = 1 + r.usize(nodes.len() - 1);
+                nodes[j].1 = Kind::Panic;
+            }
+        }
     }
     Tree { nodes }
 }
